@@ -24,6 +24,26 @@ CLAIMED = {
    ref="DESIGN.md §8 C02, §7 M1",
    note="Lean kernel + {propext, Classical.choice, Quot.sound}; the hand-written model is tied to the code only by the differential run (sampled); usize = 64 bit",
    technique="Lean 4 proof (induction over chunks with a strict-prefix invariant) + differential correspondence"),
+ "C03": dict(
+   text="Lean 4 theorems over a small-step model of one adapter's driver/registry (user calls from any thread or from "
+        "inside callbacks are atomic steps, process() is split at every lock release and callback, adapter answers are "
+        "inputs), proved as invariants over all reachable states: the per-endpoint event sequence never leaves the automaton "
+        "Connected(true) Message* Disconnected? | Connected(false) (connect-made) / Accepted(listener) Message* Disconnected? "
+        "(accepted); events name the endpoint's origin; nothing follows the end; a failed inbound handshake leaves no event; "
+        "UDP contract yields only Connected(true)/Message; the two exits of connect_sync. Tie: recorded scripted histories "
+        "(all four transports, raw/tungstenite peers, failures, in-callback calls) re-executed on the model.",
+   ref="DESIGN.md §8 C03, §7 M5",
+   note="Lean kernel + standard axioms; adapters' answers and the OS are the environment; 'exactly one Connected per connect' is proved as at-most-one (safety), its occurrence is monitored by the tie",
+   technique="Lean 4 proof (inductive invariant over a small-step model: lifecycle automaton phase vs registry state) + trace conformance"),
+ "C04": dict(
+   text="Lean 4 theorems over the same model: for every endpoint (#Disconnected events) + (#remove() calls that returned "
+        "true) <= 1 in every reachable state (counting invariant: both are successful deregistrations, and ids are never "
+        "reused), Disconnected is emitted only after the receive that reported it returned (after its data), after the end "
+        "send/is_ready/remove answer NotFound/None/false forever, a successful remove unregisters at once. Tie: scripted "
+        "histories + 8-thread remove races against peers' closes on real connections.",
+   ref="DESIGN.md §8 C04, §7 M5",
+   note="Lean kernel + standard axioms; RwLock mutual exclusion assumed (deregister is one atomic step in the model); the race tie samples schedules",
+   technique="Lean 4 proof (counting invariant + freshness) + trace conformance and forced races"),
  "C06": dict(
    text="Lean 4 theorems over a small-step concurrent model of events.rs (any number of sender threads doing atomic "
         "enqueues, clock ticks, the receiver split at every shared access), proved as inductive invariants over all "
@@ -84,13 +104,23 @@ CLAIMED = {
    ref="DESIGN.md §8 C11, §7 M2",
    note="Lean kernel + standard axioms; kernel TCP / epoll semantics assumed",
    technique="Lean 4 proof (induction over read/write schedules and poll events) + differential correspondence on real connections"),
+ "C13": dict(
+   text="Lean 4 theorems: the status table of send (NotFound iff unregistered, NotAvailable iff registered and not ready "
+        "with the adapter not invoked, else the adapter's status), send never touches the connection state, the Ws and Udp "
+        "adapters answer MaxPacketSizeExceeded exactly above the regenerated declared maximum and transmit nothing then, "
+        "the declared maxima table (decide). Tie: payloads around every limit on real connections in both directions "
+        "(status, delivery, connection usable afterwards) + scripted histories with sends in every resource state.",
+   ref="DESIGN.md §8 C13, §7 M5/M2/M8",
+   note="Lean kernel + standard axioms; tungstenite's frame limits and the kernel's datagram limit are the environment (that they match the declared maximum is checked by the tie only)",
+   technique="Lean 4 proof (case analysis on the model's send step, decide on the regenerated table) + differential correspondence"),
  "C14": dict(
    text="Lean 4 theorems over a model of the ResourceId bit layout (Nat with explicit 2^64 wrap, the Rust mask/shift "
         "expressions transcribed): field round trip, the accessors partition all 64 bits for every raw value, injectivity, "
         "poll-token round trip and waker distinctness on the token's domain, generator freshness for < 2^56 ids per "
         "registry, disjointness across registries, and the regenerated transport/driver table (decide). Tie: differential "
-        "run through hooks on structured raw values + a live-network row. History-level parts (stale endpoints, event "
-        "attribution) are added with the network model M5.",
+        "run through hooks on structured raw values + a live-network row. History level (network model M5): ids are never "
+        "reused over any history, a send to an ended endpoint answers ResourceNotFound and reaches no adapter in every "
+        "continuation; tied by scripted histories re-executed on the model.",
    ref="DESIGN.md §8 C14, §7 M6",
    note="Lean kernel + standard axioms (no bv_decide); hooks expose the private constructor/token conversions; usize = 64 bit",
    technique="Lean 4 proof (bit ops reduced to arithmetic normal forms + omega; decide on the regenerated table) + differential correspondence"),
@@ -98,10 +128,21 @@ CLAIMED = {
    text="Lean 4 theorem feed_total: no byte sequence in any chunking makes the decoder model panic (inductive "
         "invariant over reachable decoder states), plus boundedness of buffered garbage. Tie: differential run on "
         "malformed streams (non-canonical/over-long/huge prefixes, mutated streams) with panic detection under "
-        "overflow checks. Network-level parts (hostile handshakes, isolation of other connections) are added with the M5 model.",
+        "overflow checks. Network level (M5): a processor step on one connection changes no other connection's "
+        "registration or readiness and reports events about that connection only, failed handshakes leave no event; tied "
+        "by scripted histories with hostile raw peers (garbage, partial handshakes, resets) and a panic detector.",
    ref="DESIGN.md §8 C17, §7 M1",
    note="Lean kernel + standard axioms; checked-arithmetic semantics; tungstenite parsing exercised not modelled",
    technique="Lean 4 proof (inductive invariant, totality) + differential correspondence on malformed inputs"),
+ "C18": dict(
+   text="Lean 4 theorems over the driver model: a socket is open iff its register has a holder (the registry map or the "
+        "in-flight processor step); every way of ending is a deregistration; once every registered resource has ended and "
+        "the processor is idle no socket is open; a closed register is never held again. Tie: /proc/self/fd counted before "
+        "the node, with the idle node, after all resources of a randomized history ended, and after dropping the node; peers "
+        "that closed must have produced a Disconnected.",
+   ref="DESIGN.md §8 C18, §7 M5",
+   note="Lean kernel + standard axioms; Rust Drop order and the kernel closing a socket with its last descriptor are assumed; thread release is checked with the node model (C09)",
+   technique="Lean 4 proof (holder invariant over the driver model) + resource accounting on real histories"),
  "C19": dict(
    text="Lean 4 theorems over a model of RemoteAddr parametric in the SocketAddr parser and printer (hold for every "
         "parser): classification, text preservation, predicate exactness, accessors, lossless typed conversions. Tie: "
